@@ -361,7 +361,7 @@ fn peephole3_helper(lines: &[Line], index: usize, ret: &mut Vec<Line>) -> bool {
                         Instr::PushFloat(a),
                         Instr::PushFloat(b),
                         Instr::DivFloat(Reg::Top, Reg::Top, Reg::Top),
-                    ) => {
+                    ) if b.parse::<f64>().is_ok_and(|b| b != 0.0) => {
                         let a = a.parse::<f64>().unwrap();
                         let b = b.parse::<f64>().unwrap();
                         let c = a / b;
